@@ -562,3 +562,114 @@ Print Assumptions C17_type_values_examples.
 Theorem C17_type_values_example : type_values_example.
 Proof. exact type_values_example_holds. Qed.
 Print Assumptions C17_type_values_example.
+
+(* ======================= content_projection / content_replay for EVERY attribute; ConstantValue and Module =======================
+
+   Vocabulary (coq/C17/Theory19.v, Values2.v).  [fvalue_at F t pl name val]: in trace t the visitor at place pl receives an
+   attribute named [name] (raw flag r, body b) with F (loc_of pl) name r b = Some val — for an ARBITRARY function F of location,
+   name, raw flag and body, i.e. for every parser of an attribute body.  ([value_at X V rs] is [fvalue_at (attr_value X V rs)].)
+   [attr_value2 X V W rs tg]: [attr_value] extended by ConstantValue (the body is one pool index; the KIND [tg i] of the entry
+   selects the variant — [constant_value_gen], read off `as_constant_value` —, a number is handed over as its bits, a String
+   entry as the string its string_index designates, any other kind is refused) and Module (`read_module`: [module_secs_gen] —
+   the leading name / flags / version, then requires, exports, opens, uses, provides; the rows of exports / opens / provides
+   end in a nested vector of indices; [p_module] parses, [enc_module] is the JVMS 4.7.25 encoding, [module_ok] the shape). *)
+From FB Require Import C17.Values2 C17.Theory19.
+
+(* reading: whatever is computed from an attribute handed over — by any parser F — a partial or declining visitor gets at a place
+   exactly what the full visitor gets there, if it wants the attribute; nothing else *)
+Theorem C17_read_fvalues_projection : forall A (F : N -> str -> bool -> bytes -> option A) T g c h,
+  tables_ok T = true -> wf g T c h ->
+  forall v rest t_v, read_class g T v (enc c ++ rest) = Ok (t_v, rest) ->
+  forall pl name val,
+    fvalue_at F t_v pl name val <-> fvalue_at F (spec_class T (v_full T) h c) pl name val /\ wanted T v pl name.
+Proof. exact (@read_fvalues_projection). Qed.
+Print Assumptions C17_read_fvalues_projection.
+
+(* replaying: the same for the tree of the full read replayed into any visitor (strict builder / lenient builder outside the
+   known class) *)
+Theorem C17_replay_fvalues : forall A (F : N -> str -> bool -> bytes -> option A) T AT,
+  tables_ok T = true -> accept_ok T AT = true ->
+  forall t_full tree, build true T AT t_full = Ok tree ->
+  forall v pl name val,
+    fvalue_at F (accept_class T AT v tree) pl name val <-> fvalue_at F t_full pl name val /\ wanted T v pl name.
+Proof. exact (@replay_fvalues). Qed.
+Print Assumptions C17_replay_fvalues.
+
+Theorem C17_replay_fvalues_known : forall A (F : N -> str -> bool -> bytes -> option A) T AT,
+  tables_ok T = true -> accept_ok T AT = true ->
+  forall t_full tree, build false T AT t_full = Ok tree -> replay_inexact T AT t_full = false ->
+  forall v pl name val,
+    fvalue_at F (accept_class T AT v tree) pl name val <-> fvalue_at F t_full pl name val /\ wanted T v pl name.
+Proof. exact (@replay_fvalues_known). Qed.
+Print Assumptions C17_replay_fvalues_known.
+
+(* for the code as it is, with decidable hypotheses only, and for every parser at once *)
+Theorem C17_fvalues_total : forall c, wf_b tables c = true -> once_b tables accept_tables_gen c = true ->
+  replay_inexact tables accept_tables_gen (full_of c) = false ->
+  exists tree, build false tables accept_tables_gen (full_of c) = Ok tree
+    /\ forall A (F : N -> str -> bool -> bytes -> option A) v rest,
+         exists t_v, read_class g_len tables v (enc c ++ rest) = Ok (t_v, rest)
+         /\ forall pl name val,
+              (fvalue_at F t_v pl name val <-> fvalue_at F (full_of c) pl name val /\ wanted tables v pl name)
+              /\ (fvalue_at F (accept_class tables accept_tables_gen v tree) pl name val <-> fvalue_at F t_v pl name val).
+Proof. exact fvalues_total. Qed.
+Print Assumptions C17_fvalues_total.
+
+(* Module: for every list of sections the parser inverts the encoding and consumes exactly it *)
+Theorem C17_module_parse : forall secs vals rest, module_ok secs vals = true ->
+  p_module secs (enc_module secs vals ++ rest) = Ok (vals, rest).
+Proof. exact p_module_enc. Qed.
+Print Assumptions C17_module_parse.
+
+(* what the visitor is handed for a Module attribute is the resolved, flattened value the body encodes *)
+Theorem C17_attr_value_module : forall X V W rs tg loc name vals, valued V name = false -> str_eqb name (vn_constant W) = false ->
+  str_eqb name (vn_module W) = true -> module_ok (vn_msecs W) vals = true ->
+  attr_value2 X V W rs tg loc name false (enc_module (vn_msecs W) vals) = Some (canon_module rs (vn_msecs W) vals).
+Proof. exact attr_value2_module. Qed.
+Print Assumptions C17_attr_value_module.
+
+(* ConstantValue: the value is decided by the kind of the pool entry the body designates *)
+Theorem C17_attr_value_constant : forall X V W rs tg loc name i, valued V name = false -> str_eqb name (vn_constant W) = true ->
+  attr_value2 X V W rs tg loc name false (e16 i)
+  = match assocN (tg i) (vn_cv W) with
+    | Some true => Some (tg i :: rs_ref rs (tg i) i)
+    | Some false => Some [tg i; rs_num rs (tg i) i]
+    | None => None
+    end.
+Proof. exact attr_value2_constant. Qed.
+Print Assumptions C17_attr_value_constant.
+
+(* attr_value2 extends attr_value: nothing the theorems of the previous part speak of is changed *)
+Theorem C17_attr_value2_extends : forall X V W rs tg loc name raw body val,
+  attr_value X V rs loc name raw body = Some val -> attr_value2 X V W rs tg loc name raw body = Some val.
+Proof. exact attr_value2_extends. Qed.
+Print Assumptions C17_attr_value2_extends.
+
+(* non-vacuity with the tables of the code as it is: a module declaration (one row in every vector but one, nested vectors of
+   two) satisfies [module_ok], its encoding is the stated 44 bytes and the value handed over is the stated list; an Integer
+   entry gives [3; bits], a String entry [8; checksum], a Class entry is refused *)
+Theorem C17_values2_examples : values2_nonvacuous.
+Proof. exact values2_nonvacuous_holds. Qed.
+Print Assumptions C17_values2_examples.
+
+(* … and through the whole chain: `class A` with a field f:I carrying ConstantValue -> #6 (Integer) is well-formed, outside the
+   known class, the full visitor wants the attribute at field 0 and is handed [3; the entry's bits] *)
+Theorem C17_constant_example : constant_example.
+Proof. exact constant_example_holds. Qed.
+Print Assumptions C17_constant_example.
+
+(* the known class, kind by kind.  The strict builder (replay_inexact) refuses an attribute that extends a list by no element
+   (F20a: C17_replay_empty_annotations_refuted), a second attribute extending an already filled list
+   (C17_replay_duplicate_refuted) and a second attribute OVERWRITING an already assigned field; the third kind has its witness
+   here — an annotation method with two AnnotationDefault attributes is well-formed, inside the known class, its tree is built
+   (the last default wins) and the replay into the full visitor differs from the read: every kind of refusal is a situation in
+   which the replay genuinely differs *)
+Theorem C17_replay_overwrite_refuted : refutes w_overwrite (v_full tables).
+Proof. exact replay_overwrite_refuted. Qed.
+Print Assumptions C17_replay_overwrite_refuted.
+
+(* … while the same method with ONE AnnotationDefault is outside the known class, and the full read hands the method visitor
+   the int constant of pool entry 7 *)
+Theorem C17_one_default_example : one_default_example.
+Proof. exact one_default_example_holds. Qed.
+Print Assumptions C17_one_default_example.
